@@ -47,11 +47,19 @@ BOUNDS = dict(quick=dict(nb="2", partitions="inn = lower band / all bands, out =
                          "classes and the remaining switch variants are thorough-only, see outside_claim)",
                          spectrum="symbolic sorted; every pattern of gaps around the 1e-7 cut of dEig_inv (and the 1e-3 cut of the SDCT formulas) is a path",
                          matrices="every elementary H-gauge matrix and comma-derivative (der<=3 for Ham, <=2 otherwise) fully symbolic"),
-              thorough=dict(nb="2 (every class and switch variant, including the heavy ones), 3 (a list of 15 light classes)", partitions="as quick plus inn = upper band", spectrum="as quick",
-                            matrices="as quick"))
+              thorough=dict(nb="2: every class and switch variant incl. the heavy second-derivative ones (inn = lower / upper / all bands; pair formulas: six group pairs). "
+                            "3: every class that finishes (all but the NB3_EXCLUDED list), default and external_terms=False switches, plus every remaining switch variant for 15 inexpensive classes; "
+                            "six band groups (0|12, 12|0, 1|02, 012|-, 01|2, 2|01; pair formulas six pairs) for the inexpensive ones, two (0|12, 12|0) for the NB3_EXPENSIVE list",
+                            calculators="nb=2, symbolic Fermi grid EF0, EF0+dEF (dEF>0) anywhere relative to the bands: every StaticCalculator subclass of calculators/static.py (except the three "
+                            "CALC_HEAVY ones), every Tabulator subclass of calculators/tabulate.py, and the dynamic calculators JDOS, OpticalConductivity, SHC (simple/ryoo/qiao), ShiftCurrent, "
+                            "InjectionCurrent, SDCT_(a)sym_sea_I/II (kBT=0, two concrete frequencies, Lorentzian width 0.125): the result object carries the declared transform AND "
+                            "result(-k).data == transform(result(k).data)",
+                            spectrum="as quick", matrices="as quick"))
 EXPLANATION = ("Two Data_K_R shells stand for k and -k: equal symbolic spectrum, and every elementary H-gauge matrix of the second one is the parity image "
                "(sign*(-1)^der*conj X for time reversal, sign*(-1)^der*X for inversion, signs from the repository's own R-space tables) of the first one's fully symbolic matrix. "
-               "The real formula classes are built on both shells; trace(-k) == declared transform(trace(k)) is decided as an identity of rational functions.")
+               "The real formula classes are built on both shells; trace(-k) == declared transform(trace(k)) is decided as an identity of rational functions.  "
+               "Thorough tier, calculator level: the real static / tabulating / dynamic calculators run on both shells (every placement of the symbolic Fermi grid and every degeneracy pattern is a path); "
+               "the result must carry the formula's (or calculator's) declared transform and its data at -k must be that transform of the data at k.")
 ASSUMPTIONS = ["H-gauge axiom: X(-k) = p_TR(X)*(-1)^der*conj X(k) (time reversal, gauge |u(-k)> = T|u(k)>), X(-k) = p_I(X)*(-1)^der*X(k) (inversion, even orbitals at the origin); "
                "p from symmetry/sym_wann_2.py parity_TR/parity_I; the (-1)^der and conj parts are checked at Wannier-gauge level on the real Rvectors.R_to_k (axiom cases)",
                "band energies sorted ascending and equal at k and -k", "comma-derivative indices commute (exact for R_to_k: (iR_a)(iR_b))",
@@ -271,9 +279,11 @@ def partitions(nb, tier, kind):
     if nb == 2:
         p = [([0], [1]), ([0, 1], [])] + ([([1], [0])] if tier == "thorough" else [])
     else:
-        p = [([0], [1, 2]), ([1, 2], [0])] + ([([1], [0, 2]), ([0, 1, 2], [])] if tier == "thorough" else [])
+        p = [([0], [1, 2]), ([1, 2], [0])] + ([([1], [0, 2]), ([0, 1, 2], [])] if tier in ("thorough", "deep") else []) + ([([0, 1], [2]), ([2], [0, 1])] if tier == "deep" else [])
     if kind == "trace_ln":      # pairs of groups (m-group, n-group)
-        p = [([0], [1]), ([0], [0]), ([0, 1], [0, 1])] if nb == 2 else [([0], [1, 2]), ([1, 2], [1, 2]), ([2], [0])]
+        p = [([0], [1]), ([0], [0]), ([0, 1], [0, 1])] if nb == 2 else [([0], [1, 2]), ([1, 2], [1, 2]), ([2], [0])] + ([([1], [1]), ([0, 1], [2]), ([0, 1, 2], [0, 1, 2])] if tier == "deep" else [])
+    if kind == "trace_ln" and nb == 2 and tier == "thorough":
+        p = p + [([1], [0]), ([1], [1]), ([0, 1], [0])]
     return p
 
 
@@ -420,6 +430,87 @@ def case_axiom(rec, mode, nb, der, ncart):
     rec.explore(body, [])
 
 
+# ---- calculator level: the result objects carry the formula's declaration and their data obey it ---------------------------------------------------------------
+import wannierberri.calculators.static as ST, wannierberri.calculators.tabulate as TAB, wannierberri.calculators.sdct as SDC
+import wannierberri.result.energyresult as ER, wannierberri.result.kbandresult as KB, wannierberri.result.result as RES
+CALC_MODS = MODS + [ST, TAB, SDC, ER, KB, RES]
+OMEGA = np.array([0.5, 1.75])
+EF_DYN = np.array([0.25])
+
+
+def sym_ceil(x):
+    if isinstance(x, np.ndarray) and x.ndim == 0:
+        x = x.item()
+    if not isinstance(x, SymC) or x.isconst():
+        import math
+        return math.ceil(float(x))
+    for n in range(-2, 64):
+        if x <= n:
+            return n
+    raise Inconclusive("ceil candidate range exhausted")
+
+
+def calculators():
+    """name -> (kind, factory(Ef, thr)) for every calculator class that can be built without files"""
+    out = {}
+    for n, c in inspect.getmembers(ST, inspect.isclass):
+        if issubclass(c, ST.StaticCalculator) and c is not ST.StaticCalculator and not n.startswith("_") and c.__module__ == ST.__name__:
+            out[f"static.{n}"] = ("static", lambda Ef, thr, c=c: c(Efermi=Ef, degen_thresh=thr, save_mode=""))
+    for n, c in inspect.getmembers(TAB, inspect.isclass):
+        if issubclass(c, TAB.Tabulator) and c is not TAB.Tabulator and c.__module__ == TAB.__name__:
+            out[f"tabulate.{n}"] = ("tab", lambda Ef, thr, c=c: c(degen_thresh=thr, save_mode=""))
+    dyn = dict(Efermi=EF_DYN, omega=OMEGA, kBT=0, smr_fixed_width=0.125, save_mode="")
+    out["dynamic.JDOS"] = ("dyn", lambda Ef, thr: DYN.JDOS(degen_thresh=thr, **dyn))
+    out["dynamic.OpticalConductivity"] = ("dyn", lambda Ef, thr: DYN.OpticalConductivity(degen_thresh=thr, **dyn))
+    for typ in ("simple", "ryoo", "qiao"):
+        out[f"dynamic.SHC {typ}"] = ("dyn", lambda Ef, thr, typ=typ: DYN.SHC(SHC_type=typ, degen_thresh=thr, **dyn))
+    out["dynamic.ShiftCurrent"] = ("dyn", lambda Ef, thr: DYN.ShiftCurrent(sc_eta=0.0625, degen_thresh=thr, **dyn))
+    out["dynamic.InjectionCurrent"] = ("dyn", lambda Ef, thr: DYN.InjectionCurrent(degen_thresh=thr, **dyn))
+    for n in ("SDCT_sym_sea_I", "SDCT_asym_sea_I", "SDCT_sym_sea_II", "SDCT_asym_sea_II"):
+        out[f"sdct.{n}"] = ("dyn", lambda Ef, thr, n=n: getattr(SDC, n)(degen_thresh=thr, **dyn))
+    return out
+
+
+CALC_HEAVY = ("static.eMChA_FermiSurf", "static.NLDrude_Zeeman_orb_Omega", "static.NLDrude_Zeeman_orb")     # formulas of 20..60 CPU-s per evaluation times ~100 Fermi-placement paths
+
+
+def calc_data(res):
+    return res.data
+
+
+def case_calculator(rec, names, mode, nb):
+    shadow(CALC_MODS)
+    ST.ceil = sym_ceil
+    reg = calculators()
+    E = symvec("E", (1, nb))
+    thr, EF0, dEF = SymC.var("thr"), SymC.var("EF0"), SymC.var("dEF")
+    Ef = sarr([EF0, EF0 + dEF])
+    attr = "transformTR" if mode == "TR" else "transformInv"
+    for name in names:
+        kind, make = reg[name]
+
+        def body(rec, name=name, kind=kind, make=make):
+            d1, d2, X1 = two_shells(nb, E, mode)
+            rec.witness = lambda env: dict(test="calculator", name=name, mode=mode, nb=nb, E=env.val(E[0]).tolist(), thr=env.val(thr), Efermi=[env.val(e) for e in Ef],
+                                           X={f"{k[0]},{k[1]}": env.arr(v) for k, v in dict.items(X1)})
+            try:
+                c1, c2 = make(Ef.copy(), thr), make(Ef.copy(), thr)
+            except AttributeError as e:      # tabulate.DerMorb_test refers to a formula class that does not exist: cannot be instantiated, nothing to check
+                rec.note(f"{name} cannot be instantiated ({e})")
+                rec.concrete(f"{name}: not instantiable", True)
+                return
+            r1, r2 = c1(d1), c2(d2)
+            tr = getattr(r1, attr)
+            f = c1.Formula(d1, **c1.kwargs_formula) if kind != "dyn" else c1.Formula(data_K=d1, **c1.kwargs_formula)
+            want = getattr(c1, attr, None) if (kind == "dyn" and hasattr(c1, attr)) else getattr(f, attr)
+            rec.concrete(f"{name}: result.{attr} is the declared one", tr is not None and tr == want and tr.conj == want.conj, detail=f"{tr} vs {want}",
+                         key=f"{name}: result does not carry the declared {attr}")
+            a = np.array(calc_data(r1), dtype=object).view(SymArray)
+            rec.eq(f"{name}: result(-k) == result.{attr}(result(k))", calc_data(r2), tr(a.copy()), key=f"{name}: result data differ from the declared {attr} image")
+        ass = sorted_ass(E) + [thr.zreal() > 0] + ([dEF.zreal() > 0] if kind == "static" else [])
+        rec.explore(body, ass)
+
+
 # ---- case list ------------------------------------------------------------------------------------------------------------------------------------------------
 # labels whose polynomial normal forms cost 10..60 CPU-seconds each at nb=2 (measured): thorough tier only, one worker each
 HEAVY_BASES = ("covariant.Der2Morb", "covariant.Der2morb", "covariant.Der2Morb_H", "covariant.NLDrude_Z_orb_Hplus", "covariant.NLDrude_Z_orb_Omega", "covariant.emcha_surf")
@@ -430,12 +521,27 @@ def is_heavy(label):
 
 
 # light classes that are also run at nb=3 (thorough)
-NB3 = ("covariant.Omega", "covariant.Morb_Hpm", "covariant.morb", "covariant.Velocity", "covariant.Spin", "covariant.DerOmega", "covariant.Der3E", "elementary.InvMass",
-       "covariant.VelOmega", "covariant.OmegaS", "basic.tildeFc", "basic.tildeHGc", "dynamic.Formula_OptCond", "dynamic.InjectionCurrentFormula", "sdct.Formula_SDCT_surf_I")
+VARIANT_TAGS = ("internal_terms=False", "sign=", "OO_uIu", "FF_rotAA", "CCab_antisym", "S_terms=True")
+# nb=3, measured on one core with two band groups: do not finish within 240 s -> not run at nb=3 (nb=2 covers them)
+NB3_EXCLUDED = ("covariant.Der2Morb external_terms=False", "covariant.Der2Morb_H external_terms=False", "covariant.Der2Omega", "covariant.Der2Omega external_terms=False",
+                "covariant.Der2morb external_terms=False", "covariant.NLDrude_Z_orb_Hplus external_terms=False", "covariant.NLDrude_Z_orb_Omega external_terms=False", "covariant.OmegaHplus",
+                "covariant.VelDQM", "covariant.emcha_surf external_terms=False", "dynamic.ShiftCurrentFormula external_terms=True")
+# nb=3, 30..170 CPU-s with two band groups: one worker each, two band groups; everything else gets six band groups
+NB3_EXPENSIVE = ("covariant.DerMorb", "covariant.Dermorb", "covariant.DerQuantumMetric_ab_d", "covariant.NLDrude_Z_spin", "covariant.NLDrude_Z_spin external_terms=False", "basic.Der_morb",
+                 "basic.tildeHGc_d", "basic.tildeFc_d", "covariant.OmegaOmega", "covariant.VelDQM external_terms=False", "sdct.Formula_SDCT_sea_I sym=True", "sdct.Formula_SDCT_sea_I sym=False",
+                 "dynamic.ShiftCurrentFormula external_terms=False", "sdct.Formula_SDCT_surf_II sym=False", "sdct.Formula_SDCT_surf_II sym=False external_terms=False",
+                 "covariant.SpinOmega qiao external_terms=True", "dynamic.Formula_SHC qiao external_terms=True")
+NB3_ALL_VARIANTS = ("covariant.Omega", "covariant.Morb_H", "covariant.Morb_Hpm", "covariant.morb", "covariant.VelOmega", "covariant.OmegaS", "covariant.QuantumMetric_ab", "covariant.VelHplus",
+                    "covariant.MassVel", "covariant.Der3E", "basic.tildeFc", "basic.tildeHGc", "elementary.InvMass", "covariant.DerOmega", "covariant.DerMorb_H")
+CALC_MEDIUM = ("static.AHC_Zeeman_orb", "static.GME_orb_FermiSea", "static.GME_orb_FermiSea_test", "static.NLDrude_Zeeman_spin", "static.QuantumMetric_Vel_DQ", "dynamic.ShiftCurrent",
+               "sdct.SDCT_sym_sea_I", "sdct.SDCT_asym_sea_I", "dynamic.SHC qiao", "tabulate.Der2OrbitalMoment", "tabulate.Der2BerryCurvature")
 
 OUTSIDE += ["declared transforms that no calculator reads: basic.tildeHab / tildeHab_d (consumed only through .nn by tildeHGab*, which carry no declaration of their own) and "
             "get_transform_TR/Inv('FF'|'GG') of the bare covariant matrices (every formula built on them declares its own transform); their declarations were found "
             "inconsistent with the computed parity and are recorded as an observation in DESIGN.md, not as a violation of this property"]
+OUTSIDE += ["nb=3 for " + ", ".join(NB3_EXCLUDED) + " and for the heavy classes (do not finish within 240 CPU-s per variant at nb=3; nb=2 covers them)",
+            "calculator level: " + ", ".join(CALC_HEAVY) + " (formulas of 20..60 CPU-s per evaluation times ~60 Fermi-placement paths), the SDCT surface terms and any kBT>0 (exp of symbolic "
+            "energies), Gaussian smearing, tetrahedron weights, tabulate.DerOrbitalMoment_test (refers to a non-existent formula class, cannot be instantiated)"]
 OUTSIDE += ["quick tier skips (thorough runs them): the variants internal_terms=False, sign=-1/0, OO_uIu, FF_rotAA, CCab_antisym, S_terms=True of every class, and " + ", ".join(l for l in registry() if is_heavy(l)),
             "classes without a declared transformTR/transformInv (internal building blocks: Der2A, Der2B, Der2O, Der2H, tildeFab, tildeFab_d, tildeHGab, tildeHGab_d, Dcov, DerDcov, Der2Dcov, "
             "DEinv_ln) have nothing to compare", "nb > 3; band groups other than those listed in BOUNDS", "spinful time reversal beyond the H-gauge axiom (the Kramers structure of U(-k) is "
@@ -465,10 +571,23 @@ def _cases_own(tier, seed):
             for l in labels:
                 if is_heavy(l):
                     out.append(Case(f"formula {mode} nb=2 (heavy): {l}", case_formula, dict(labels=[l], mode=mode, nb=2, tier="quick"), timeout=1150))
-            nb3 = [l for l in light if l.split()[0] in NB3]
-            for i in range(0, len(nb3), 4):
-                chunk = nb3[i:i + 4]
-                out.append(Case(f"formulas {mode} nb=3: " + "; ".join(chunk), case_formula, dict(labels=chunk, mode=mode, nb=3, tier="quick"), timeout=1150))
+            # nb=3: every label that finishes (measured), default and external_terms=False variants; every remaining switch variant for the classes that cost a few seconds
+            cand = [l for l in light if l not in NB3_EXCLUDED and (not any(v in l for v in VARIANT_TAGS) or l.split()[0] in NB3_ALL_VARIANTS)]
+            cheap = [l for l in cand if l not in NB3_EXPENSIVE]
+            for i in range(0, len(cheap), 8):
+                chunk = cheap[i:i + 8]
+                out.append(Case(f"formulas {mode} nb=3: " + "; ".join(chunk), case_formula, dict(labels=chunk, mode=mode, nb=3, tier="deep"), timeout=3000))
+            for l in cand:
+                if l not in cheap:
+                    out.append(Case(f"formula {mode} nb=3 (expensive): {l}", case_formula, dict(labels=[l], mode=mode, nb=3, tier="quick"), timeout=3000))
+            names = [n for n in calculators() if n not in CALC_HEAVY]
+            lightc = [n for n in names if n not in CALC_MEDIUM]
+            for i in range(0, len(lightc), 8):
+                chunk = lightc[i:i + 8]
+                out.append(Case(f"calculators {mode} nb=2: " + "; ".join(chunk), case_calculator, dict(names=chunk, mode=mode, nb=2), timeout=3000))
+            for n in names:
+                if n in CALC_MEDIUM:
+                    out.append(Case(f"calculator {mode} nb=2: {n}", case_calculator, dict(names=[n], mode=mode, nb=2), timeout=3000))
     return out
 
 
@@ -502,6 +621,29 @@ def _generic(w, nb):
 
 def _replay(rec):
     w = rec["witness"]
+    if w["test"] == "calculator":
+        nb, mode, name = w["nb"], w["mode"], w["name"]
+        E = np.array(w["E"], dtype=float)[None]
+        if nb > 1 and np.all(np.diff(E[0]) == 0):
+            E = E + np.arange(nb)[None] * 0.37
+        Ef = np.array(w["Efermi"], dtype=float)
+        if Ef[1] <= Ef[0]:
+            Ef = np.array([Ef[0], Ef[0] + 0.1])
+        thr = w["thr"] or 1e-4
+        kind, make = calculators()[name]
+        d1, d2, X1 = two_shells(nb, E, mode, concrete=_generic(w, nb))
+        r1, r2 = make(Ef.copy(), thr)(d1), make(Ef.copy(), thr)(d2)
+        attr = "transformTR" if mode == "TR" else "transformInv"
+        tr = getattr(r1, attr)
+        c1 = make(Ef.copy(), thr)
+        f = c1.Formula(d1, **c1.kwargs_formula) if kind != "dyn" else c1.Formula(data_K=d1, **c1.kwargs_formula)
+        want = getattr(c1, attr, None) if (kind == "dyn" and hasattr(c1, attr)) else getattr(f, attr)
+        if tr is None or not (tr == want and tr.conj == want.conj):
+            return True, f"{name}: result carries {tr}, declared {want}"
+        a, b = np.array(r1.data), np.array(r2.data)
+        err = np.abs(b - tr(a.copy())).max() if a.size else 0.0
+        scale = np.abs(a).max() if a.size else 0.0
+        return bool(err > 1e-9 * (scale + 1e-300)), f"{name} {mode}: |result(-k) - declared(result(k))| = {err:.3e} (scale {scale:.3e}); E={E[0].tolist()} Efermi={Ef.tolist()}"
     if w["test"] == "axiom":
         import wannierberri.fourier.rvectors as RV
         XR = unarr(w["XR"]).astype(complex)
